@@ -263,7 +263,11 @@ func expectEventLog(p *PatSpec, pi int, script []string, id int, rname, inbox st
 				return panicked()
 			}
 			pub("event." + rname + "." + arg)
-			listeners(arg, digest(map[string]interface{}{"n": id}))
+			if pad := model.PadFor(id); pad != "" {
+				listeners(arg, digest(map[string]interface{}{"n": id, "pad": pad}))
+			} else {
+				listeners(arg, digest(map[string]interface{}{"n": id}))
+			}
 		case "qe":
 			pub("event." + rname + ".query")
 		case "chgempty":
